@@ -76,6 +76,14 @@ ElemParam::startElement(StylesheetExecutionContext&     executionContext) const
     }
     else
     {
+        // Bind the value that was passed like any other variable of
+        // the template, so it's visible to what follows the xsl:param,
+        // and only to that.
+        executionContext.pushVariable(
+            *m_qname,
+            obj,
+            getParentNodeElem());
+
         if (0 != executionContext.getTraceListeners())
         {
             executionContext.fireTraceEvent(
